@@ -147,6 +147,7 @@ def run(ctx):
     gen += [pyval.to_model(sc.rand_value(rng, depth=rng.randint(1, 5), allow_bad=False, width=rng.choice([2, 5, 10]))) for _ in range(ngen)]
     streams = legacy_streams(rng, 400 if ctx.quick else 4000)
     loads = [{"inp": s, "cfg": [a, b], "stream": (i % 3 == 0)} for i, s in enumerate(streams) for a, b in itertools.product([False, True], repeat=2)]
+    loads += [{"inp": s, "cfg": [False, False], "stream": (i % 2 == 0), "defaults": True} for i, s in enumerate(streams[:150])]
     job = {"dump": models + gen, "modes": ["dumps", "stream"], "load": loads}
     cases = sc.record(ctx, job)["cases"]
     per_interp = {"venv": len(cases)}
